@@ -46,3 +46,44 @@ def exact_of(rec):
     dmax = Fraction(common.unlimbs(rec["mn"]), dd)
     kappa = common.rat(rec["ks"], rec["kn"], rec["kd"])
     return delta, dmax, kappa
+
+
+def special_sequences(rng, maxn):
+    """Long strongly correlated / skewed patterns (homopolymers, alternations, blocks, one odd charge)."""
+    out = []
+    for n in (129, 200, maxn):
+        n = min(n, maxn)
+        out += ["E" * n, "K" * n, ("EK" * n)[:n], "E" * (n // 2) + "K" * (n - n // 2),
+                "E" * (n // 3) + "G" * (n // 3) + "K" * (n - 2 * (n // 3))]
+    # skewed compositions where the delta-max family is known to be weak (finding K1)
+    for comp in ((18, 1, 1), (12, 1, 1), (1, 18, 1), (20, 2, 19), (2, 30, 18)):
+        s = list("E" * comp[0] + "K" * comp[1] + "G" * comp[2])
+        rng.shuffle(s)
+        out.append("".join(s))
+    out.append("K" + "E" * 18 + "G")
+    out.append("E" * 9 + "K" + "E" * 9 + "G")
+    out += ["Q" * 190 + "K" + "N" * 9, "S" * 100 + "E" + "G" * 180 + "K" + "Q" * 99]
+    return [s[:maxn] for s in out]
+
+
+def judge_traces(ctx, trs, need_sqrt=0, owns_k1=False):
+    """Validate traces with Trace_Queries; turn rejections into violations and known findings."""
+    from . import traces
+    verdicts, known = traces.validate(ctx, "Trace_Queries", trs, {"sqrt": traces.sqrt_table(need_sqrt)})
+    bytid = {t["tid"]: t for t in trs}
+    for tid, ev, kid in known:
+        if not owns_k1:
+            continue    # a conforming reply that is out of range is finding K1 of C01; other properties only need conformance
+        t = bytid[tid]
+        ctx.known.append((kid.split(":")[1], "%s on %s" % (t["ev"][ev - 1]["q"], "".join(t["seq"])[:60])))
+    for tr in trs:
+        v = verdicts[tr["tid"]]
+        ctx.traces += 1
+        if v[0] == "reject":
+            e = tr["ev"][v[1] - 1]
+            ctx.violation(v[2], {"seq": "".join(tr["seq"]), "after": tr.get("after"), "event": e["q"],
+                                 "args": {k: e[k] for k in e if k not in ("q", "r")}, "reply_fx": e["r"]},
+                          expected="reply matches the specification (Trace_Queries, 1e-9)", actual="trace rejected by TLC at event %d" % v[1])
+        else:
+            ctx.nontrivial.add("".join(tr["seq"]))
+    return verdicts
